@@ -40,7 +40,7 @@ func cmdVerify(args []string) {
 	}
 	bad := 0
 	for _, name := range fs.Args() {
-		fn := eng.Func(name)
+		fn := eng.Func(strings.SplitN(name, "#", 2)[0])
 		if fn == nil {
 			fmt.Println("not found:", name, "candidates:", eng.FuncNames(name[strings.LastIndex(name, ".")+1:]))
 			bad++
